@@ -1,16 +1,16 @@
-\* thorough, exhaustive: period 3, heights 0..16, BPCOUNT constant, 3 rankings (one with fewer candidates than BPCOUNT), at most 2 content
-\* changes per chain, LIB at most 6 behind, any number of reorganisations / restarts / failed blocks
+\* thorough, exhaustive: period 3, heights 0..13, BPCOUNT constant, 2 rankings (the second with fewer candidates than BPCOUNT), at most 2 content
+\* changes per chain, LIB at most 4 behind, any number of reorganisations / restarts / failed blocks
 SPECIFICATION Spec
 CONSTANTS
   P = 3
-  MaxH = 16
+  MaxH = 13
   Genesis <- Gen3
-  Rankings <- Rank3
+  Rankings <- Rank2s
   Counts <- C3
   ContentSet <- Every
   DefaultCount = 3
   MaxChanges = 2
-  MaxLibLag = 6
+  MaxLibLag = 4
   CountFix = FALSE
   MaxReorgs = 99
   MaxRestarts = 99
